@@ -6,7 +6,9 @@
     refuse an empty file list. *)
 From TU Require Import RNG_Model RNG_Proofs RNG_Check RNG_Props.
 From TU Require Import Base C07_Model C07_Proofs C07_Specs C07_Top C07_Weighted C07_Seeded.
+From TU Require Import C01_Model Lines_Model JSON_Model C07_Files C07_FilesProofs.
 Require Import Permutation.
+Close Scope N_scope.
 
 (** Termination, every strategy, every oracle in range: the fuel
     (sum of lengths + number of sources + 1 pulls) is never exhausted, no assertion or
@@ -245,3 +247,112 @@ Example rng_witness_ok :
              (fst (RNG_Model.run_calls (v_script rng_witness) (RNG_Model.seed_from_u64 (RNG_Model.v_hl (v_nth 1 rng_witness))))))
   && check_C07s rng_witness (run_C07s rng_witness) = true.
 Proof. vm_compute. reflexivity. Qed.
+
+
+(** * The loader's input files inside the model (C07_Files.v; Lines_Props.v and JSON_Props.v hold the statements
+    about the line reader and the JSON parser on their own).
+    [items_of_file b]: what train_data_generator_from_jsonl yields for a file with bytes [b] — per line the
+    TrainData (input, target; the target defaults to the input) or the class of the Err item; [file_len b]:
+    its [len()]; [run_files s o fs]: MultiTrainDataGenerator over the files [fs], drained. *)
+
+(** [len()] is honest for every file: the generator yields exactly [file_len b] items (Ok or Err), and that is the
+    number of '\n' bytes plus one for a non-empty unterminated last line. *)
+Theorem file_len_honest : forall b, length (items_of_file b) = file_len b.
+Proof. exact file_items_len. Qed.
+Print Assumptions file_len_honest.
+
+Theorem file_len_closed_form : forall b, length (items_of_file b) = count_lines_spec b.
+Proof. exact file_items_len_closed. Qed.
+Print Assumptions file_len_closed_form.
+
+(** Writing items as serde_json lines, '\n' or '\r\n' after each, and reading the file back gives exactly the
+    items, for all strings of scalar values (quotes, backslashes, control characters, line breaks, NUL, ... inside). *)
+Theorem jsonl_roundtrip : forall items, Forall item_ok items ->
+  items_of_file (jsonl_file items) = map item_written items /\ file_len (jsonl_file items) = length items.
+Proof. exact jsonl_roundtrip_l. Qed.
+Print Assumptions jsonl_roundtrip.
+
+(** ... also when the last line has no terminator (repaired reader, /repo 833c360). *)
+Theorem jsonl_roundtrip_open : forall items i t, Forall item_ok items -> item_ok ((i, t), false) ->
+  items_of_file (jsonl_file items ++ utf8s (line_of i t)) = map item_written items ++ [item_written ((i, t), false)].
+Proof. exact jsonl_roundtrip_open_l. Qed.
+Print Assumptions jsonl_roundtrip_open.
+
+(** The reader of the pinned tree: the same items on every file that ends with '\n'; the last item of an
+    unterminated file is lost (its line loses the closing brace). *)
+Theorem pinned_reader_same_when_terminated : forall b, (b = [] \/ last b 0%N = 10%N) ->
+  items_of_file_pinned b = items_of_file b.
+Proof. exact items_pinned_terminated. Qed.
+Print Assumptions pinned_reader_same_when_terminated.
+
+Theorem pinned_reader_refuted : exists items i t, Forall item_ok items /\ item_ok ((i, t), false) /\
+  items_of_file_pinned (jsonl_file items ++ utf8s (line_of i t)) <> map item_written items ++ [item_written ((i, t), false)].
+Proof.
+  exists [], [97%N], None. split; [constructor|]. split; [split; [reflexivity|exact Logic.I]|]. vm_compute. discriminate.
+Qed.
+Print Assumptions pinned_reader_refuted.
+
+(** The property of C07 over files: whatever the bytes, the combined generator yields, per file, exactly the items
+    of that file in order with the file's index as tag, [len()] items in total. *)
+Theorem files_items : forall s o fs out, fs <> [] -> run_files s o fs = Ok out ->
+  (forall j, proj j out = items_of_file (nth j fs [])) /\ length out = sum_nat (map file_len fs) /\
+  Forall (fun p => fst p < length fs) out.
+Proof. exact files_items_l. Qed.
+Print Assumptions files_items.
+
+Theorem files_total : forall s o fs, fs <> [] -> oracle_guard o ->
+  is_weighted s && existsb (fun b => Nat.eqb (file_len b) 0) fs = false ->
+  exists out, run_files s o fs = Ok out.
+Proof. exact files_total_l. Qed.
+Print Assumptions files_total.
+
+Theorem files_sequential : forall o fs, fs <> [] -> run_files Sequential o fs = Ok (seq_spec (map items_of_file fs)).
+Proof. exact files_sequential_l. Qed.
+Print Assumptions files_sequential.
+
+Theorem files_interleaved : forall o fs, fs <> [] -> run_files Interleaved o fs = Ok (rr (map items_of_file fs)).
+Proof. exact files_interleaved_l. Qed.
+Print Assumptions files_interleaved.
+
+(** weighted from the seed, the weights being the line counts: a run of the oracle model under an oracle in range *)
+Theorem files_seeded_oracle : forall seed fs r, (N.of_nat (sum_nat (map file_len fs)) < RNG_Model.p64)%N ->
+  run_files_seeded seed fs = Some r -> exists o, oracle_guard o /\ run_files Weighted o fs = r.
+Proof. exact files_seeded_oracle_l. Qed.
+Print Assumptions files_seeded_oracle.
+
+(** the executable statement on file cases: true of the model's own output, and sound *)
+Theorem check_file_run : forall v, v_files v <> [] ->
+  (f_strategy v = Weighted ->
+   (N.of_nat (sum_nat (map file_len (v_files v))) < RNG_Model.p64)%N
+   /\ run_files_seeded (v_n (v_nth 1 v)) (v_files v) <> None) ->
+  check_file_case v (run_file_case v) = true.
+Proof. exact check_file_run_l. Qed.
+Print Assumptions check_file_run.
+
+Theorem check_file_sound : forall v out, check_file_case v out = true -> shape_ctor_err out = false ->
+  let files := v_files v in
+  let items := v_list v_fout (v_nth 1 out) in
+  (forall j, proj j items = items_of_file (nth j files [])) /\ length items = sum_nat (map file_len files) /\
+  v_nat (v_nth 3 out) = sum_nat (map file_len files) /\
+  Forall (fun p => fst p < length files) items /\
+  (f_strategy v = Sequential -> items = seq_spec (map items_of_file files)) /\
+  (f_strategy v = Interleaved -> items = rr (map items_of_file files)).
+Proof. exact check_file_sound_l. Qed.
+Print Assumptions check_file_sound.
+
+(** Non-vacuity: items with every kind of awkward character; a file with a malformed, a blank and a CR LF line and no
+    final newline, read from its bytes. *)
+Example item_ok_witness : Forall item_ok [(([34; 92; 10; 13; 0; 233; 128512]%N, Some [125]%N), true); (([]%N, None), false)].
+Proof. repeat constructor. Qed.
+Example file_read :
+  items_of_file [123; 34; 105; 110; 112; 117; 116; 34; 58; 34; 97; 34; 125; 13; 10;     (* {"input":"a"} CR LF *)
+                 10;                                                                       (* blank *)
+                 91; 93; 10;                                                               (* [] *)
+                 123; 34; 105; 110; 112; 117; 116; 34; 58; 34; 255; 34; 44; 34; 116; 97; 114; 103; 101; 116; 34; 58;
+                 34; 98; 34; 125]%N                                                        (* {"input":"\xFF","target":"b"} *)
+  = [FData [97]%N [97]%N; FErr EParse; FErr ENotObject; FData [65533]%N [98]%N].
+Proof. vm_compute. reflexivity. Qed.
+Example file_case_witness :
+  let v := L [I 5; I 0; L [L [I 123; I 125; I 10; I 49]; L []; L [I 10]]; L []]%Z in
+  v_files v <> [] /\ check_file_case v (run_file_case v) = true.
+Proof. split; [discriminate|vm_compute; reflexivity]. Qed.
